@@ -9,7 +9,7 @@ no matter how the constructors delegate to each other.  A constructor that
 branches, loops or calls something that is not itself straight-line is left as
 it is (the pattern will then not match: fail closed).
 """
-from .pat import match, Agg, Param, Const, Call, ANY, Through, callee_is
+from .pat import match, Agg, Param, Const, Call, ANY, Through, Field, callee_is
 from .sym import short, subst_params
 from .common import return_paths
 
@@ -87,3 +87,70 @@ def check_ctor(ctx, rule, key, fid, pat, fields=None, adt=None, optional=False):
     ctx.check(good, rule, key, short(v, 6) if v is not None else "-", f.at(),
               bad_detail=detail + "constructor value: " + (short(v, 8) if v is not None else "not a straight-line constructor (branches or loops)"))
     return good
+
+
+# ---------------------------------------------------------------------------------------------------------
+# per-property tables: (key, function id, pattern over the flattened value, declared field order, adt path)
+# "the value a user configures is the value the operator acts on" - each entry is a necessary condition of the
+# property it is filed under: the rules on select/apply/mutate read `self.<field>`, these pin what the public
+# constructors put there.
+def _t(key, fid, pat, fields=None, adt=None):
+    return (key, fid, pat, fields, adt)
+
+
+EC = "ec_core::"
+TABLES = {
+    "C07": [
+        _t("Tournament::new-stores-size", EC + "operator::selector::tournament::Tournament::new", Agg("Tournament::Tournament", Param(1)),
+           ("size",), EC + "operator::selector::tournament::Tournament"),
+    ],
+    "C06": [
+        _t("TournamentSizeError::new-stores-(tournament_size,population_size)", EC + "operator::selector::tournament::TournamentSizeError::new",
+           Agg("TournamentSizeError::TournamentSizeError", Param(1), Param(2)), ("tournament_size", "population_size"), EC + "operator::selector::tournament::TournamentSizeError"),
+    ],
+    "C08": [
+        _t("Lexicase::new-stores-num_test_cases", EC + "operator::selector::lexicase::Lexicase::new", Agg("Lexicase::Lexicase", Param(1)),
+           ("num_test_cases",), EC + "operator::selector::lexicase::Lexicase"),
+    ],
+    "C14": [
+        _t("Select::new-wraps-the-selector", EC + "operator::selector::Select::<S>::new", Agg("Select::Select", Param(1))),
+        _t("Mutate::new-wraps-the-mutator", EC + "operator::mutator::Mutate::<M>::new", Agg("Mutate::Mutate", Param(1))),
+        _t("Recombine::new-wraps-the-recombinator", EC + "operator::recombinator::Recombine::<R>::new", Agg("Recombine::Recombine", Param(1))),
+        _t("Constant::new-stores-the-value", EC + "operator::constant::Constant::<T>::new", Agg("Constant::Constant", Param(1))),
+        _t("GenomeScorer::new-stores-(genome_maker,scorer)", EC + "operator::genome_scorer::GenomeScorer::<G, S>::new", Agg("GenomeScorer::GenomeScorer", Param(1), Param(2)),
+           ("genome_maker", "scorer"), EC + "operator::genome_scorer::GenomeScorer"),
+        _t("GenomeScorer::construct=new(genome_maker,scorer)", "<" + EC + "operator::genome_scorer::GenomeScorer<G, S> as " + EC + "operator::composable::Wrappable<G>>::construct",
+           Agg("GenomeScorer::GenomeScorer", Param(1), Param(2))),
+    ],
+    "C15": [
+        _t("IndividualGenerator::new-stores-(genome_generator,scorer)", EC + "individual::ec::IndividualGenerator::<GG, S>::new", Agg("IndividualGenerator::IndividualGenerator", Param(1), Param(2)),
+           ("genome_generator", "scorer"), EC + "individual::ec::IndividualGenerator"),
+        _t("with_scorer=IndividualGenerator(self,scorer)", "<GG as " + EC + "individual::ec::WithScorer>::with_scorer", Agg("IndividualGenerator::IndividualGenerator", Param(1), Param(2))),
+        _t("EcIndividual::from((genome,results))=new(genome,results)", "<" + EC + "individual::ec::EcIndividual<G, R> as std::convert::From<(G, R)>>::from",
+           Agg("EcIndividual::EcIndividual", Field(Param(1), 0), Field(Param(1), 1)), ("genome", "test_results"), EC + "individual::ec::EcIndividual"),
+        _t("EcIndividual::new-stores-(genome,test_results)", EC + "individual::ec::EcIndividual::<G, R>::new", Agg("EcIndividual::EcIndividual", Param(1), Param(2)),
+           ("genome", "test_results"), EC + "individual::ec::EcIndividual"),
+    ],
+    "C01": [
+        _t("PushValue::new-stores-the-literal", "push::instruction::common::push_value::PushValue::<T>::new", Agg("PushValue::PushValue", Param(1))),
+        _t("PrintString::new-stores-the-text", "push::instruction::printing::string::PrintString::new", Agg("PrintString::PrintString", Param(1))),
+        _t("PushProgram::from(instruction)=Instruction(into)", "<push::push_vm::program::PushProgram as std::convert::From<T>>::from",
+           Agg("PushProgram::Instruction", Call("Into::into", Param(1), nargs=1))),
+    ],
+    "C05": [
+        _t("Plushy::new-collects-the-genes-in-order", "push::genome::plushy::Plushy::new", Agg("Plushy::Plushy", Call("Iterator::collect", Call("IntoIterator::into_iter", Param(1), nargs=1), nargs=1))),
+        _t("PushGene::from(instruction)=Instruction(into)", "<push::genome::plushy::PushGene as std::convert::From<T>>::from", Agg("PushGene::Instruction", Call("Into::into", Param(1), nargs=1))),
+    ],
+}
+
+
+def check_table(ctx, prop, rule):
+    from .run import AnchorMissing
+    n = 0
+    for key, fid, pat, fields, adt in TABLES.get(prop, []):
+        try:
+            check_ctor(ctx, rule, key, fid, pat, fields=fields, adt=adt)
+        except AnchorMissing:
+            pass            # recorded as anchor-missing (a violation); the remaining entries are still evaluated
+        n += 1
+    return n
